@@ -323,15 +323,37 @@ Definition mk_cov (kind : nat) (s : Q) (v : list Q) (M : list (list Q)) : covfor
 Definition mk_param (k : nat) : gparam :=
   match k with 0%nat => PCov | 1%nat => PPrec | 2%nat => PSqrtcov | _ => PSqrtprec end.
 
+(* Gaussian.compute_cov(): the dense covariance, from the stored argument for cov=..., otherwise the inverse of the
+   precision sqrtprec^T sqrtprec the LOG-DENSITY uses: prec=P -> P^-1; sqrtprec=R (stored as given) -> (R^T R)^-1;
+   sqrtcov=R -> the code's convention cov = R R^T (C04 finding Gaussian.sqrtcov|dense-non-normal) *)
+Definition sq_of (dim : nat) (c : covform) : qm := dense_of true dim c.      (* scalar -> c I, vector -> diag, matrix *)
+Definition compute_cov_model (p : gparam) (dim : nat) (c : covform) : option qm :=
+  let M := sq_of dim c in
+  match p with
+  | PCov => Some M
+  | PPrec => qinv M
+  | PSqrtcov => Some (qmatmul dim M (qtranspose dim M))
+  | PSqrtprec => qinv (qmatmul dim (qtranspose dim M) M)
+  end.
+
 (* one Gaussian as the harness describes it: (parameterisation, kind, scalar, vector, matrix, computed cov) *)
 Record gdesc := { gd_param : nat; gd_kind : nat; gd_s : Q; gd_v : list Q; gd_M : list (list Q);
                   gd_computed : option (list (list Q)) }.
-Definition gd_cov (g : gdesc) : option covform :=
-  cov_getter (mk_param (gd_param g)) (mk_cov (gd_kind g) (gd_s g) (gd_v g) (gd_M g))
-             (match gd_computed g with Some M => Some (qmat M) | None => None end).
+(* gd_computed = Some _ records that compute_cov() was called before the estimate; the value MAP then reads from .cov is
+   the MODEL's compute_cov (the observed one is compared separately by check_compute_cov, not trusted) *)
+Definition gd_cov (dim : nat) (g : gdesc) : option covform :=
+  let c := mk_cov (gd_kind g) (gd_s g) (gd_v g) (gd_M g) in
+  cov_getter (mk_param (gd_param g)) c
+             (match gd_computed g with Some _ => compute_cov_model (mk_param (gd_param g)) dim c | None => None end).
+
+Definition check_compute_cov (dim : nat) (g : gdesc) (returned_is_cov : bool) : bool :=
+  match gd_computed g, compute_cov_model (mk_param (gd_param g)) dim (mk_cov (gd_kind g) (gd_s g) (gd_v g) (gd_M g)) with
+  | Some obs, Some M => qcll_close tol8 (qmat obs) M && returned_is_cov
+  | _, _ => false
+  end.
 
 Definition check_map (fixed : bool) (m n : nat) (A : list (list Q)) (b x0 : list Q) (ge gx : gdesc) (w : obs) : bool :=
-  outcome_matches tol8 (map_direct fixed m n (qmat A) (qvec b) (qvec x0) (gd_cov ge) (gd_cov gx)) w.
+  outcome_matches tol8 (map_direct fixed m n (qmat A) (qvec b) (qvec x0) (gd_cov m ge) (gd_cov n gx)) w.
 
 Definition is_lower (L : qm) : bool :=
   forallb (fun p => forallb qc_is0 (skipn (S (fst p)) (snd p))) (combine (seq 0 (length L)) L).
@@ -342,7 +364,7 @@ Definition diag_pos (L : qm) : bool :=
    one further script z with its draw s *)
 Definition check_sample (fixed : bool) (m n : nat) (A : list (list Q)) (b x0 : list Q) (ge gx : gdesc)
            (err : obs) (mu : list Q) (L : list (list Q)) (z s : list Q) : bool :=
-  match sample_direct fixed m n (qmat A) (qvec b) (qvec x0) (gd_cov ge) (gd_cov gx) with
+  match sample_direct fixed m n (qmat A) (qvec b) (qvec x0) (gd_cov m ge) (gd_cov n gx) with
   | SErr e => outcome_matches tol8 e err
   | SLaw mu' C =>
       match err with
@@ -405,7 +427,7 @@ Definition qcl_relclose (tol : Q) (observed model : list Qc) : bool :=
   Nat.eqb (length observed) (length model) &&
   forallb (fun p => Qle_bool (Qabs (this (fst p) - this (snd p))) (tol * qmaxabs model)) (combine observed model).
 Definition check_map_rel (fixed : bool) (m n : nat) (A : list (list Q)) (b x0 : list Q) (ge gx : gdesc) (w : list Q) : bool :=
-  match map_direct fixed m n (qmat A) (qvec b) (qvec x0) (gd_cov ge) (gd_cov gx) with
+  match map_direct fixed m n (qmat A) (qvec b) (qvec x0) (gd_cov m ge) (gd_cov n gx) with
   | Val x => qcl_relclose tol8 (qvec w) x
   | _ => false
   end.
@@ -433,7 +455,7 @@ Definition check_entry_route (is_ml : bool) (P : pinfo) (max_dim_inv : nat) (lab
 Definition check_map_entry (fixed : bool) (m n : nat) (A : list (list Q)) (b x0 : list Q) (x0arg : option (list Q)) (disp : bool)
            (ge gx : gdesc) (w : obs) : bool :=
   outcome_matches tol8 (map_entry fixed m n (qmat A) (qvec b) (qvec x0)
-                          (match x0arg with Some v => Some (qvec v) | None => None end) disp (gd_cov ge) (gd_cov gx)) w.
+                          (match x0arg with Some v => Some (qvec v) | None => None end) disp (gd_cov m ge) (gd_cov n gx)) w.
 
 (* under-determined full-row-rank systems: the likelihood is maximal exactly on { x : A x = b } *)
 Definition check_ml_under (A : list (list Q)) (b x : list Q) : bool := qcl_close tol4 (qmatvec (qmat A) (qvec x)) (qvec b).
